@@ -317,7 +317,7 @@ impl Property for C17 {
         ]
     }
     fn pbt(&self, tier: Tier) -> PbtCfg {
-        PbtCfg { cases: tier.pick(150_000, 5_000_000), max_len: tier.pick(500, 1600), shrink_ms: 120_000 }
+        PbtCfg { cases: tier.pick(150_000, 3_000_000), max_len: tier.pick(500, 1600), shrink_ms: 120_000 }
     }
     fn required_labels(&self) -> Vec<&'static str> {
         vec!["handshake_and_session_under_one_key", "challenged_by_second_server", "fell_back_after_challenge"]
